@@ -122,7 +122,7 @@ func runC08(w *fw.Worker) {
 	maxFull := 4
 	if !w.Quick() {
 		bound, maxFull = 3, 5
-		progs = append(progs, corpus.DocBlocks("/repo")...)
+		progs = append(progs, corpus.DocBlocks(corpus.RepoDir())...)
 	}
 	hits := seam.CountHits(true)
 	for pi, src := range progs {
